@@ -223,7 +223,10 @@ def tt3_command(sx, shape, n):
         body = [int(shape, 16)] + IDM + list(sx.bytes("c", n))
         cmd = sx.mkbytes([len(body) + 1] + body, True)
     entry = "tt3.process_command"
+    wrong_len = True if len(cmd) == 0 else cmd[0] != len(cmd)
     st, rsp = guarded(sx, entry, (), emu.process_command, cmd)
+    # a frame whose length byte does not match is not a command
+    sx.check(sx.implies(wrong_len, rsp is None), "wrong-length-command-answered:" + entry)
     return tt3_result(sx, entry, rsp)
 
 
@@ -1236,6 +1239,75 @@ MUST_REACH = ["pdu:decode-error", "pdu:decoded", "pdu:nested-agf-done",
               "connect:card-returned",
               "tt3:ignored", "tt3:answered", "tt3:dialog-ended"]
 LIMITS = {"quick": dict(witness_cap=30), "thorough": dict(witness_cap=120)}
-BOUNDS = {"quick": "", "thorough": ""}
-OUTSIDE = []
-ASSUMPTIONS = []
+BOUNDS = {
+    "quick": "pdu.decode (+str/len of the result): every byte string of 0..6 octets; aggregates "
+    "of 2 sub-PDUs of 2..4 symbolic octets and symbolic length fields; AGF-in-AGF nesting "
+    "1..3 (symbolic innermost PDU) and 50, 200, 543 levels (2174 octets). dep: every PDU "
+    "class' decode() with code bytes + 0..5 (ATR: 0..19) symbolic octets and 0..3 raw octets; "
+    "decode_frame of both roles at 106A/212F with 0..6 raw octets and framed PDUs with 0..4 "
+    "(ATR: 0,1,9,13..17) symbolic octets; Initiator.exchange+deactivate with 2 arbitrary "
+    "answers (12 shapes: silence, CRC error, raw 0/3 octets, framed DEP/ATR/PSL/DSL/RLS with "
+    "0..3 symbolic octets), also chained with DID; Initiator.activate in active (ATR_RES "
+    "from sense_dep: 12 shapes) and passive A/F mode (ATR_RES and PSL_RES frames arbitrary); "
+    "Target.activate with ATR_REQ of 16..22 octets (symbolic parameters / general bytes / "
+    "fully symbolic) and arbitrary first DEP_REQ, Target.exchange x2 + deactivate with 2 "
+    "arbitrary requests (15 shapes), send_timeout_extension. llc.activate in both roles "
+    "with general bytes: none, 0..7 fully symbolic, magic + 0..5 symbolic, 13 TLV "
+    "structures (symbolic values, lengths around the correct one, truncated), then one run "
+    "loop; llc.run with a SAP table holding raw, logical data link, data link connection "
+    "in LISTEN / CONNECT / CLOSED / ESTABLISHED (with and without listener) / CLOSE_WAIT / "
+    "DISCONNECT and a free SAP, SAP 0 and SAP 1: one received frame of 0..6 symbolic octets "
+    "per destination (ssap, type, payload symbolic), aggregates to these sockets, nested "
+    "aggregate of 2/60/543 levels, then two SYMM and silence. Type 3 Tag emulation: every "
+    "command of 0..6 octets, every command code 04/06/08/0C/0A with the emulation's IDm + "
+    "0..4 symbolic octets, read/write with 1-2 symbolic service codes, block count from "
+    "{0,1,2,3,15,16,255}, 0..5 block list octets, up to 32 data octets; command dialogs via "
+    "send_response. SNEP server _serve: 13 fragment sequences (0..11 octets, up to 3 "
+    "fragments, all octets symbolic), MIU 128 / 6, NDEF decoding outcome drawn per call; "
+    "SNEP client put/get with 10 response fragment sequences, server closing or silent; "
+    "handover server serve with 6 fragment sequences. connect(llcp=) in both roles with 11 "
+    "general byte shapes and a first LLC frame of 2..3 symbolic octets per SAP; connect as "
+    "initiator with an ATR_RES from sense_dep (7 shapes); connect(card=) with 8 command "
+    "sequences",
+    "thorough": "as quick with: pdu.decode 0..9 octets, aggregates up to 3 sub-PDUs / 9 "
+    "octets; dep PDU tails 0..7, raw frames 0..8, ATR tails 0..19; Initiator.exchange with 3 "
+    "arbitrary answers; all PSL shapes in activation; Target with 3 arbitrary requests; llc "
+    "general bytes up to 9 raw / magic + 8 octets and 20 TLV structures in both roles; llc.run "
+    "frames of 0..9 octets; Type 3 commands 0..8 raw and code + 0..6; SNEP 19 / 14 sequences; "
+    "connect first frame 2..5 octets",
+}
+OUTSIDE = [
+    "byte strings longer than the stated bounds other than the constructed ones (nested "
+    "AGF, structured TLV sequences, framed PDUs with symbolic tails)",
+    "LLCP encryption (nfc/llcp/sec.py: OpenSSL through ctypes) - links run with sec=False; "
+    "the DPS PDU exchange of run_as_initiator/run_as_target is not executed",
+    "NDEF decoding of SNEP / handover octets (ndeflib): replaced by a choice of outcomes",
+    "real thread scheduling: the link thread's calls run in the calling thread; application "
+    "threads that sleep in a socket call are modelled by the state they leave behind",
+    "NFC-DEP chaining of received frames longer than one DEP PDU (received LLC frames are "
+    "carried in one INF PDU) and LLC frames that arrive while data is still being sent",
+    "WKS parameter values other than {0000,0001,0013,00FF,1300,1301,1313,13FF,FF00..FFFF "
+    "combinations of 00/13/FF and 00/01/13/FF}: the 16 WKS bits are turned into text bit by "
+    "bit at activation",
+    "drivers: the frontend / device driver is a script that returns the given bytes or "
+    "raises the driver's documented exceptions (C13/C14 cover the drivers)",
+    "Type 4 / Type 2 tag emulation (nfc.tag.emulate only emulates Type 3)",
+    "peer behaviour over many frames (more than 3 arbitrary frames per conversation)",
+]
+ASSUMPTIONS = [
+    "env.peer.ScriptClf / ScriptInitiator / ScriptTarget: the frontend under nfc.dep and the "
+    "MAC under the LLC answer from a script; silence (TimeoutError) when it is exhausted; "
+    "an ATR_REQ handed to Target.activate has 16..64 octets (ContactlessFrontend.listen "
+    "guarantees it)",
+    "env.peer.SymKeyDict in place of the plain dicts llc.snl, ServiceDiscovery.sent, "
+    "Type3TagEmulation.services and SnepError.strerr: same contents, look-up by comparison",
+    "env.llcp: Condition.wait() without time-out raises WouldBlock (a thread that would "
+    "sleep until notified); inside the thread that runs the link nobody else can notify",
+    "env.sockpair: reliable boundary preserving connection, client and server stacks "
+    "alternate strictly; NdefChoice: ndef.message_decoder raises DecodeError or returns one "
+    "record, drawn per call",
+    "env.recdevice RecDevice + FuzzPeer / FuzzReader: a driver that frames the given LLC "
+    "frames / tag commands correctly (NFC-DEP INF PDUs, length bytes)",
+    "Type 3 emulation services as registered by examples/tagtool.py (env.tags.Tt3EmuSim)",
+    "the virtual clock of symx.envpatch (time-outs expire by computation, not by waiting)",
+]
